@@ -144,7 +144,9 @@ func VerifC38_response() {
 		p := vrt.Bytes("chunk", vrt.Range("chunkLen", 1, vrt.Param("L", 2)))
 		n, err := rw.Write(p)
 		if bodyOK {
-			vrt.Assert(err == nil && n == len(p), "C38/write-accepted")
+			if !isHead { // for HEAD the bytes are discarded; what Write reports to the handler is not part of the claim
+				vrt.Assert(err == nil && n == len(p), "C38/write-accepted")
+			}
 			body = append(body, p...)
 		} else {
 			vrt.Assert(err != nil, "C38/write-refused-for-bodyless-status")
